@@ -542,3 +542,57 @@ func realTimeEmit(prop string, total int, tick time.Duration, fk bool) {
 }
 
 var _ = slices.Sort[[]int]
+
+// ---------------------------------------------------------------- Join of many inputs of bulky elements (thorough tier: ~300 MB)
+
+type mib [1 << 20]byte
+
+func init() {
+	progs["join-quiet-feeds-bulky"] = func(c *caseT) string {
+		ctx, cancel := context.WithCancel(context.Background())
+		defer cancel()
+		k := c.N
+		ins := make([]chan mib, k)
+		ro := make([]<-chan mib, k)
+		for i := range ins {
+			ins[i] = make(chan mib)
+			ro[i] = ins[i]
+		}
+		var out <-chan mib
+		if c.Comment == "fork" {
+			out = fork.Join(ctx, ro...)
+		} else {
+			out = pipe.Join(ctx, ro...)
+		}
+		go func() {
+			var x mib
+			x[0], x[len(x)-1] = 42, 24
+			ins[k-1] <- x
+		}()
+		synctest.Wait()
+		select {
+		case v := <-out:
+			if v[0] != 42 || v[len(v)-1] != 24 {
+				return "the element arrived damaged"
+			}
+		default:
+			return fmt.Sprintf("the element sent on input %d of %d (all open, unbuffered, 1 MiB elements) is not offered on the output at quiescence", k-1, k)
+		}
+		for i := range ins {
+			close(ins[i])
+		}
+		if _, ok := <-out; ok {
+			return "an element nobody sent"
+		}
+		return ""
+	}
+}
+
+func progsJoinBulky(t *testing.T, prop string) {
+	if !common.Thorough() {
+		return
+	}
+	for _, k := range []int{8, 300} {
+		runProg(t, prop, &caseT{Stage: "prog/join-quiet-feeds-bulky", N: k})
+	}
+}
